@@ -399,8 +399,12 @@ def run_extract(data, seconds=5, entry="text"):
     def onalarm(*a):
         raise Hang()
     import resource
+    # the work bound is measured in CPU time of this process (ITIMER_PROF), so that a loaded machine cannot turn a slow but finite run into a "hang";
+    # a wall-clock alarm of 12 x the bound stays as a backstop for a call that blocks without computing
     old = signal.signal(signal.SIGALRM, onalarm)
-    signal.alarm(seconds)
+    oldp = signal.signal(signal.SIGPROF, onalarm)
+    signal.setitimer(signal.ITIMER_PROF, seconds)
+    signal.alarm(12 * seconds)
     soft, hard = resource.getrlimit(resource.RLIMIT_AS)
     with open("/proc/self/statm") as f:
         cur = int(f.read().split()[0]) * resource.getpagesize()
@@ -423,7 +427,7 @@ def run_extract(data, seconds=5, entry="text"):
             extract_text_to_fp(io.BytesIO(data), io.BytesIO(), output_type=entry, laparams=LAParams(), codec="utf-8")
         return None
     except Hang:
-        return "%s did not return within %d s" % (name, seconds)
+        return "%s did not return within %d s of CPU time" % (name, seconds)
     except RecursionError:
         return "%s exhausted the recursion limit" % name
     except MemoryError:
@@ -431,9 +435,11 @@ def run_extract(data, seconds=5, entry="text"):
     except Exception as e:
         return None if ok_exc(e) else "%s raised %s: %s" % (name, type(e).__name__, str(e)[:200])
     finally:
-        _cap_as(soft, hard)
+        signal.setitimer(signal.ITIMER_PROF, 0)
         signal.alarm(0)
+        _cap_as(soft, hard)
         signal.signal(signal.SIGALRM, old)
+        signal.signal(signal.SIGPROF, oldp)
         if outdir is not None:
             import shutil
             shutil.rmtree(outdir, ignore_errors=True)
@@ -923,6 +929,49 @@ def pagegraph_doc(shape, n, k):
     return pdfgen.build(objs)
 
 
+# ---- H4_prevchain: /Prev offsets that land anywhere around a cross-reference section (on it, on the white space before it, inside it), in one- and two-section files ----------
+PREV_D1 = list(range(-8, 9))
+PREV_D2 = [-2, -1, 0, 1, 2]
+
+
+def prevchain_doc(two, d1, d2):
+    """a classic-table file whose trailer has /Prev = (offset of its own section) + d1; with `two`, an incremental update follows whose section has /Prev = (first section) + d2 while the
+    first section's /Prev = (second section) + d1: every chain leads back into itself, exactly or through neighbouring bytes"""
+    from lib import pdfgen
+    d0 = bytes(pdfgen.build(_prev_objs(), trailer_extra={"Prev": 1111111111}))
+    x1 = int(d0.rsplit(b"startxref", 1)[1].split()[0])
+    if not two:
+        return d0.replace(b"1111111111", b"%010d" % max(0, x1 + d1))
+    x2 = len(d0) + 1
+    upd = b"\nxref\n0 1\n0000000000 65535 f \ntrailer\n<< /Size 8 /Root 1 0 R /Prev %d >>\nstartxref\n%d\n%%%%EOF\n" % (max(0, x1 + d2), x2)
+    return d0.replace(b"1111111111", b"%010d" % max(0, x2 + d1)) + upd
+
+
+def _prev_objs():
+    from lib.pdfgen import Ref, Stream
+    return {1: {"Type": "Catalog", "Pages": Ref(2)}, 2: {"Type": "Pages", "Kids": [Ref(4)], "Count": 1}, 3: {"Type": "Font", "Subtype": "Type1", "BaseFont": "Helvetica"},
+            4: {"Type": "Page", "Parent": Ref(2), "MediaBox": [0, 0, 200, 200], "Contents": Ref(5), "Resources": {"Font": {"F1": Ref(3)}}}, 5: Stream({}, b"BT /F1 10 Tf 10 100 Td (prev) Tj ET")}
+
+
+def h4_prevchain(timeout=300, part=None, **kw):
+    from pdfminer import high_level
+    import pdfminer.pdfdocument as pd
+
+    def fn(ex):
+        two = ex.choice(2, "two")
+        d1 = PREV_D1[ex.choice(len(PREV_D1), "d1")]
+        d2 = PREV_D2[ex.choice(len(PREV_D2), "d2")] if two else 0
+        entry = ENTRIES[ex.choice(2, "entry") * 3]            # extract_text / extract_pages
+        r = run_extract(prevchain_doc(two, d1, d2), entry=entry)
+        ex.require(r is None, "%s-section file, /Prev = a section's offset %+d%s: %s" % (["one", "two"][two], d1, (" and %+d" % d2) if two else "", r), two=two, d1=d1, d2=d2, entry=entry)
+
+    def conc(m, info):
+        return {"what": "prevchain", "two": info["two"], "d1": info["d1"], "d2": info["d2"], "entry": info["entry"]}
+    return core.run_symx("H4_faults", fn, [pd.PDFDocument.read_xref_from, high_level.extract_text],
+                         {"sections": [1, 2], "Prev": "own / other section's offset %+d..%+d (two sections: x %+d..%+d)" % (PREV_D1[0], PREV_D1[-1], PREV_D2[0], PREV_D2[-1]),
+                          "work bound": "5 s of CPU time, 2 GiB address-space allowance"}, timeout, concretize=conc, part=part)
+
+
 def h4_pagegraph(timeout=200, part=None, **kw):
     from pdfminer import high_level
 
@@ -1069,6 +1118,9 @@ def replay(harness, inp):
     if what == "flate":
         r = run_extract(flate_doc(inp["pos"], inp["mode"]), entry=inp["entry"])
         return None if r is None else "content stream /FlateDecode, payload byte %d %s: %s" % (inp["pos"], ["inverted", "zeroed", "and the rest cut off"][inp["mode"]], r)
+    if what == "prevchain":
+        r = run_extract(prevchain_doc(inp["two"], inp["d1"], inp["d2"]), entry=inp["entry"])
+        return None if r is None else "%s-section file, /Prev = a section's offset %+d / %+d: %s" % (["one", "two"][inp["two"]], inp["d1"], inp["d2"], r)
     if what == "pagegraph":
         shape, n, k = GRAPH_SHAPES[inp["si"]]
         r = run_extract(pagegraph_doc(shape, n, k), entry=inp["entry"])
@@ -1130,6 +1182,7 @@ def jobs(tier):
     J.append(Job("H4_encrypt", "h4_encrypt", {}, 300, "H4_faults"))
     J.append(Job("H4_huge", "h4_huge", {}, 300, "H4_faults"))
     J.append(Job("H4_pagegraph", "h4_pagegraph", {}, 300, "H4_faults"))
+    J.append(Job("H4_prevchain", "h4_prevchain", {}, 300, "H4_faults"))
     J.append(Job("H4_flate", "h4_flate", {}, 300, "H4_faults"))
     J.append(Job("H5_cmap", "h5_cmap", {}, 300, "H5_content"))
     for k in range(2):
